@@ -32,6 +32,7 @@ func run(r *vk.Run) {
 	logicClause(r)
 	streamClause(r)
 	streamLossy(r)
+	noDuplicatesOnChangeMessages(r)
 
 	q := r.Quick()
 	req := func(counter string, quick, thorough int) {
